@@ -4,6 +4,7 @@ import (
 	"bytes"
 	"errors"
 	"fmt"
+	"runtime"
 	"sort"
 	"strings"
 	"sync"
@@ -291,6 +292,52 @@ func subjects() []subject {
 
 			return []string{buf.String()}, nil
 		}},
+		{name: "packetdump-sender-text", run: func(hist []*pkt, _ []uint16, reuse bool) ([]string, error) {
+			buf := &syncBuffer{}
+			f, err := packetdump.NewSenderInterceptor(packetdump.RTPWriter(buf), packetdump.RTCPWriter(&syncBuffer{}),
+				packetdump.RTPFormatter(slowTextFormatter), packetdump.RTPFilter(func(p *rtp.Packet) bool { return len(p.Payload) == 0 || p.Payload[0]%5 != 0 }))
+			if err != nil {
+				return nil, err
+			}
+			ic, err := f.NewInterceptor("")
+			if err != nil {
+				return nil, err
+			}
+			w := ic.BindLocalStream(&interceptor.StreamInfo{SSRC: mediaSSRC}, &kit.RTPSink{})
+			c := &caller{reuse: reuse}
+			for _, p := range hist {
+				if err := c.write(w, p); err != nil {
+					return nil, err
+				}
+			}
+			_ = ic.Close()
+
+			return []string{buf.String()}, nil
+		}},
+		{name: "packetdump-receiver-text", run: func(hist []*pkt, _ []uint16, reuse bool) ([]string, error) {
+			buf := &syncBuffer{}
+			f, err := packetdump.NewReceiverInterceptor(packetdump.RTPWriter(buf), packetdump.RTCPWriter(&syncBuffer{}),
+				packetdump.RTPFormatter(slowTextFormatter), packetdump.RTPFilter(func(p *rtp.Packet) bool { return len(p.Payload) == 0 || p.Payload[0]%5 != 0 }))
+			if err != nil {
+				return nil, err
+			}
+			ic, err := f.NewInterceptor("")
+			if err != nil {
+				return nil, err
+			}
+			src := &kit.ByteSource{}
+			r := ic.BindRemoteStream(&interceptor.StreamInfo{SSRC: mediaSSRC}, src)
+			c := &caller{reuse: reuse}
+			for _, p := range hist {
+				src.Push(p.raw())
+				if _, err := c.read(r); err != nil {
+					return nil, err
+				}
+			}
+			_ = ic.Close()
+
+			return []string{buf.String()}, nil
+		}},
 		{name: "stats", run: func(hist []*pkt, _ []uint16, reuse bool) ([]string, error) {
 			fixed := time.Date(2024, 1, 1, 0, 0, 0, 0, time.UTC)
 			f, _ := stats.NewInterceptor(stats.SetNowFunc(func() time.Time { return fixed }))
@@ -466,6 +513,16 @@ func runResponder(hist []*pkt, nackFor []uint16, reuse, rtx bool) ([]string, err
 	_ = ic.Close()
 
 	return out, nil
+}
+
+// slowTextFormatter is a user formatter that prints header fields and payload bytes and takes its time (the caller has long moved on
+// to its next packet when the logger goroutine gets here).
+func slowTextFormatter(p *rtp.Packet, _ interceptor.Attributes) string {
+	for i := 0; i < 10; i++ {
+		runtime.Gosched()
+	}
+
+	return fmt.Sprintf("%d %d %v %x %x\n", p.SequenceNumber, p.Timestamp, p.CSRC, p.Header.GetExtensionIDs(), p.Payload)
 }
 
 func TestCallerBuffersNotRetained(t *testing.T) {
